@@ -109,8 +109,8 @@ class StatsRun:
             per = ch.weighted("iv.count", [(6, 1), (3, 2), (2, 7), (1, 300)])
         if d > 64 and per > 7:
             per = 2
-        if d == 1 and ch.flag("iv.huge", 1, 12):
-            per = ch.choose("iv.hugecount", [65535, 65534, 40000])
+        if d == 1 and ch.flag("iv.huge", 1, 25):
+            per = ch.choose("iv.hugecount", [40000, 65535, 40000, 65534])
             self.res.probes["huge_count"] += 1
         self.res.enumerated.setdefault("distinct_types", set()).add(str(d))
         self.t(f"interval: {d} distinct types from {types[0] if types else '-'} x{per} each")
